@@ -166,7 +166,7 @@ def explore(ctx):
     else:
         small = OrderedDict(dims)
         small["shape"] = [s for s in dims["shape"] if s != [8, 10]]
-        cases, results = ctx.run_lattice(MOD, "run_case", small, 4, part="small-shapes<=4", canon=canon)
+        cases, results = ctx.run_lattice(MOD, "run_case", small, None, part="small-shapes-full-product", canon=canon)
         c2, r2 = ctx.run_lattice(MOD, "run_case", dims, 3, part="all-shapes<=3", canon=canon)
         results = results + r2
     ratios = [r["zp_ratio"] for r in results if r.get("zp_ratio")]
